@@ -650,3 +650,149 @@ Section Witnesses.
     (c_start c <= 10)%Z /\ c_graft c <> GNone /\ c_mom c = 0 /\ (c_decoupled c = false \/ c_wd c = 0).
   Proof. cbn. repeat split; auto; try lia. discriminate. Qed.
 End Witnesses.
+
+(* ------------------------------------------------------------------ torch.optim is element-wise: blocks do not matter
+   One torch step on a parameter that is the concatenation of two pieces (values, state and gradient split at the same
+   place) is the concatenation of the two torch steps: the torch trajectory of a parameter restricted to the elements of
+   one Shampoo block is the torch trajectory of that block - whatever the merging / blocking (C05: the blocks tile the
+   parameter). *)
+Section Blockwise.
+  Context {F : Type} (Op : ops F).
+
+  Lemma map2_app {A B C} (f : A -> B -> C) : forall l1 l1' l2 l2', length l1 = length l2 ->
+    map2 f (l1 ++ l1') (l2 ++ l2') = map2 f l1 l2 ++ map2 f l1' l2'.
+  Proof.
+    induction l1 as [|a l1 IH]; intros l1' [|b l2] l2' H; cbn in H; try discriminate; cbn [app map2]; [reflexivity|].
+    rewrite IH by lia. reflexivity.
+  Qed.
+
+  Ltac len := repeat (rewrite ?map2_length, ?map_length, ?app_length); lia.
+  Ltac split_all := repeat (first [ rewrite map_app | rewrite map2_app by len ]).
+
+  Lemma wd_grad_app wd w1 w2 g1 g2 : length g1 = length w1 ->
+    wd_grad Op wd (w1 ++ w2) (g1 ++ g2) = wd_grad Op wd w1 g1 ++ wd_grad Op wd w2 g2.
+  Proof. intros H. unfold wd_grad, vaxpy. destruct (nz Op wd); [|reflexivity]. split_all. reflexivity. Qed.
+  Lemma wd_grad_len wd w g : length g = length w -> length (wd_grad Op wd w g) = length w.
+  Proof. intros H. unfold wd_grad, vaxpy. destruct (nz Op wd); [|exact H]. len. Qed.
+
+  Theorem adam_step_blockwise hp w1 w2 m1 m2 v1 v2 n g1 g2 :
+    length m1 = length w1 -> length v1 = length w1 -> length g1 = length w1 ->
+    adam_step Op hp (mkAdam (w1 ++ w2) (m1 ++ m2) (v1 ++ v2) n) (g1 ++ g2) =
+    let a := adam_step Op hp (mkAdam w1 m1 v1 n) g1 in
+    let b := adam_step Op hp (mkAdam w2 m2 v2 n) g2 in
+    mkAdam (ad_w a ++ ad_w b) (ad_m a ++ ad_m b) (ad_v a ++ ad_v b) (S n).
+  Proof.
+    intros Hm Hv Hg. cbn zeta. unfold adam_step, adam_core. cbn [ad_w ad_m ad_v ad_n].
+    rewrite wd_grad_app by exact Hg. pose proof (wd_grad_len (ad_wd hp) w1 g1 Hg) as L.
+    set (x1 := wd_grad Op (ad_wd hp) w1 g1) in *. set (x2 := wd_grad Op (ad_wd hp) w2 g2).
+    unfold vlerp, vaxpy. split_all. reflexivity.
+  Qed.
+
+  Theorem adamw_step_blockwise hp w1 w2 m1 m2 v1 v2 n g1 g2 :
+    length m1 = length w1 -> length v1 = length w1 -> length g1 = length w1 ->
+    adamw_step Op hp (mkAdam (w1 ++ w2) (m1 ++ m2) (v1 ++ v2) n) (g1 ++ g2) =
+    let a := adamw_step Op hp (mkAdam w1 m1 v1 n) g1 in
+    let b := adamw_step Op hp (mkAdam w2 m2 v2 n) g2 in
+    mkAdam (ad_w a ++ ad_w b) (ad_m a ++ ad_m b) (ad_v a ++ ad_v b) (S n).
+  Proof.
+    intros Hm Hv Hg. cbn zeta. unfold adamw_step, adam_core. cbn [ad_w ad_m ad_v ad_n].
+    unfold vlerp, vaxpy. split_all. reflexivity.
+  Qed.
+
+  Theorem adagrad_step_blockwise hp w1 w2 s1 s2 n g1 g2 :
+    length s1 = length w1 -> length g1 = length w1 ->
+    adagrad_step Op hp (mkAdagrad (w1 ++ w2) (s1 ++ s2) n) (g1 ++ g2) =
+    let a := adagrad_step Op hp (mkAdagrad w1 s1 n) g1 in
+    let b := adagrad_step Op hp (mkAdagrad w2 s2 n) g2 in
+    mkAdagrad (ag_w a ++ ag_w b) (ag_sum a ++ ag_sum b) (S n).
+  Proof.
+    intros Hs Hg. cbn zeta. unfold adagrad_step. cbn [ag_w ag_sum ag_n].
+    rewrite wd_grad_app by exact Hg. pose proof (wd_grad_len (ag_wd hp) w1 g1 Hg) as L.
+    set (x1 := wd_grad Op (ag_wd hp) w1 g1) in *. set (x2 := wd_grad Op (ag_wd hp) w2 g2).
+    unfold vaxpy. split_all. reflexivity.
+  Qed.
+
+  Theorem rmsprop_step_blockwise hp w1 w2 s1 s2 b1 b2 g1 g2 :
+    length s1 = length w1 -> length b1 = length w1 -> length g1 = length w1 ->
+    rmsprop_step Op hp (mkRmsprop (w1 ++ w2) (s1 ++ s2) (b1 ++ b2)) (g1 ++ g2) =
+    let a := rmsprop_step Op hp (mkRmsprop w1 s1 b1) g1 in
+    let b := rmsprop_step Op hp (mkRmsprop w2 s2 b2) g2 in
+    mkRmsprop (rp_w a ++ rp_w b) (rp_sq a ++ rp_sq b) (rp_buf a ++ rp_buf b).
+  Proof.
+    intros Hs Hb Hg. cbn zeta. unfold rmsprop_step. cbn [rp_w rp_sq rp_buf].
+    rewrite wd_grad_app by exact Hg. pose proof (wd_grad_len (rp_wd hp) w1 g1 Hg) as L.
+    set (x1 := wd_grad Op (rp_wd hp) w1 g1) in *. set (x2 := wd_grad Op (rp_wd hp) w2 g2).
+    destruct (fltb Op (f0 Op) (rp_mom hp)); cbn [rp_w rp_sq rp_buf]; unfold vaxpy; split_all; reflexivity.
+  Qed.
+
+  Definition app_buf (a b : option (list F)) : option (list F) :=
+    match a, b with Some x, Some y => Some (x ++ y) | _, _ => None end.
+
+  Theorem sgd_step_blockwise hp w1 w2 (bf1 bf2 : option (list F)) g1 g2 :
+    length g1 = length w1 -> match bf1 with Some x => length x = length w1 | None => True end ->
+    (bf1 = None <-> bf2 = None) ->
+    sgd_step Op hp (mkSgd (w1 ++ w2) (app_buf bf1 bf2)) (g1 ++ g2) =
+    let a := sgd_step Op hp (mkSgd w1 bf1) g1 in
+    let b := sgd_step Op hp (mkSgd w2 bf2) g2 in
+    mkSgd (sgd_w a ++ sgd_w b) (app_buf (sgd_buf a) (sgd_buf b)).
+  Proof.
+    intros Hg Hb Hn. cbn zeta. unfold sgd_step. cbn [sgd_w sgd_buf].
+    rewrite wd_grad_app by exact Hg. pose proof (wd_grad_len (sgd_wd hp) w1 g1 Hg) as L.
+    set (x1 := wd_grad Op (sgd_wd hp) w1 g1) in *. set (x2 := wd_grad Op (sgd_wd hp) w2 g2).
+    destruct (nz Op (sgd_mom hp)); cbn [sgd_w sgd_buf].
+    - destruct bf1 as [y1|], bf2 as [y2|]; cbn [app_buf];
+        try (exfalso; destruct Hn as [Ha Hc]; first [discriminate (Ha eq_refl) | discriminate (Hc eq_refl)]).
+      + destruct (sgd_nesterov hp); unfold vaxpy, vscale; split_all; reflexivity.
+      + destruct (sgd_nesterov hp); unfold vaxpy, vscale; split_all; reflexivity.
+    - unfold vaxpy. split_all. destruct bf1, bf2; reflexivity.
+  Qed.
+End Blockwise.
+
+(* ------------------------------------------------------------------ whole group histories
+   Iterating [Optimizer.group_step] over a history of (float32 scalars, per-block inputs) and looking at the k-th block is
+   [sh_run] over that block's events: the per-block theorems below speak about the real group step. *)
+Section GroupRun.
+  Context {F : Type} (Op : ops F).
+
+  Fixpoint group_run (c : cfg (F:=F)) (t : Z) (bs : list (block (F:=F))) (hist : list (hints (F:=F) * list (binput (F:=F))))
+    : list (Z * list (block (F:=F))) :=
+    match hist with
+    | [] => []
+    | (h, ins) :: r =>
+        let '(t', bs', _) := group_step Op c h t bs ins in (t', bs') :: group_run c t' bs' r
+    end.
+
+  Definition block_events (k : nat) (i0 : binput (F:=F)) (hist : list (hints (F:=F) * list (binput (F:=F)))) : list (event (F:=F)) :=
+    map (fun hi => event_of (nth k (snd hi) i0) (fst hi) (existsb has_grad (snd hi))) hist.
+
+  Definition view_block (k : nat) (b0 : block (F:=F)) (tb : Z * list (block (F:=F))) : bs (F:=F) :=
+    mkBs (fst tb) (b_w (nth k (snd tb) b0)) (b_st (nth k (snd tb) b0)).
+
+  Lemma group_step_length c h t bs ins : length ins = length bs ->
+    length (snd (fst (group_step Op c h t bs ins))) = length bs.
+  Proof.
+    intros H. unfold group_step. destruct (existsb _ ins); cbn [fst snd]; [|reflexivity].
+    rewrite map_length, map2_length. lia.
+  Qed.
+
+  Theorem group_run_block c k b0 i0 : forall hist t bs,
+    (k < length bs)%nat -> Forall (fun hi => length (snd hi) = length bs) hist ->
+    map (view_block k b0) (group_run c t bs hist)
+    = sh_run Op c (b_dims (nth k bs b0)) (mkBs t (b_w (nth k bs b0)) (b_st (nth k bs b0))) (block_events k i0 hist).
+  Proof.
+    induction hist as [|[h ins] hist IH]; intros t bs Hk HF; [reflexivity|].
+    inversion HF as [|x l Hl HF']; subst. cbn [snd] in Hl.
+    cbn [group_run block_events map sh_run traj fst snd].
+    pose proof (group_step_block_event Op c h t bs ins k b0 i0 Hk ltac:(lia)) as E. cbn zeta in E.
+    pose proof (group_step_length c h t bs ins Hl) as L.
+    destruct (group_step Op c h t bs ins) as [[t' bs'] qs]. cbn [fst snd] in E, L. destruct E as [E1 E2].
+    cbn [map]. 
+    set (s' := sh_event Op c (b_dims (nth k bs b0)) (mkBs t (b_w (nth k bs b0)) (b_st (nth k bs b0)))
+                 (event_of (nth k ins i0) h (existsb has_grad ins))) in *.
+    assert (V : view_block k b0 (t', bs') = s').
+    { unfold view_block. cbn [fst snd]. rewrite E2, E1. cbn. destruct s'; reflexivity. }
+    rewrite V. f_equal.
+    rewrite (IH t' bs') by (try lia; rewrite L; exact HF').
+    rewrite E2. cbn [b_dims b_w b_st]. unfold sh_run, block_events. rewrite E1. destruct s'; reflexivity.
+  Qed.
+End GroupRun.
